@@ -236,4 +236,146 @@ theorem coupled_join_others {s : Srv} {b : Bot} (hw : SrvWF s) (hc : Coupled s b
     simp only [Bot.stateCmd, cmdOf_JOIN, Bot.doJoin, hargs, hsplit, msg_nick_user (hw.uok hu)]
     exact h1
 
+/-! ### QUIT -/
+
+/-- removing a nick that is not on the channel changes nothing the view can see -/
+theorem chanMatches_remove_absent {sc : SChan} {ch : Chan} (h : ChanMatches sc ch) {k : Str} (hk : sc.has k = false) :
+    ChanMatches (sc.remove k) ch := by
+  rw [has_false_iff] at hk
+  have key : ∀ (P : Flags → Prop) (x : Str), (∃ f, (x, f) ∈ (sc.remove k).members ∧ P f) ↔ ∃ f, (x, f) ∈ sc.members ∧ P f := by
+    intro P x
+    simp only [SChan.remove, List.mem_filter, bne_iff_ne, ne_eq]
+    constructor
+    · rintro ⟨f, ⟨hf, _⟩, hp⟩; exact ⟨f, hf, hp⟩
+    · rintro ⟨f, hf, hp⟩; exact ⟨f, ⟨hf, fun e => hk f (e ▸ hf)⟩, hp⟩
+  refine ⟨?_, ?_, ?_, ?_, h.topic, h.modes, h.bans⟩
+  · intro x; rw [h.users]
+    have := key (fun _ => True) x
+    simpa using this.symm
+  · intro x; rw [h.ops]; exact (key (fun f => f.o = true) x).symm
+  · intro x; rw [h.halfops]; exact (key (fun f => f.h = true) x).symm
+  · intro x; rw [h.voices]; exact (key (fun f => f.v = true) x).symm
+
+theorem visible_dropEverywhere {s : Srv} (hn : (akeys s.chans).Nodup) {k x : Str}
+    (h : ({ s.dropEverywhere k with users := adel s.users k } : Srv).visible x = true) : s.visible x = true := by
+  have hn' : (akeys ({ s.dropEverywhere k with users := adel s.users k } : Srv).chans).Nodup := nodup_dropEverywhere hn k
+  obtain ⟨kc, sc', hsc', h1, h2⟩ := (visible_iff hn').mp h
+  obtain ⟨sc, hsc, rfl⟩ := dropEverywhere_chan hn hsc'
+  exact (visible_iff hn).mpr ⟨kc, sc, hsc, has_remove_of h1, has_remove_of h2⟩
+
+theorem coupled_quit {s : Srv} {b : Bot} (hw : SrvWF s) (hc : Coupled s b) (n r : Str) :
+    Coupled (s.step (.quit n r)).1 (b.recvAll (s.step (.quit n r)).2) := by
+  simp only [Srv.step]
+  split
+  · exact hc
+  · rename_i u hu
+    rw [Srv.user_eq] at hu
+    split
+    · exact hc
+    · rename_i hcond
+      simp only [Bool.or_eq_true, decide_eq_true_eq, Bool.not_eq_eq_eq_not, Bool.not_true, not_or, Bool.not_eq_false] at hcond
+      obtain ⟨hnb, _⟩ := hcond
+      have hkey := (hw.userOK hu).1
+      have huo := hw.uok hu
+      have hnown : ¬ u.nick = b.nick := fun e => hnb ((own_iff hw hc hu).mp e)
+      -- the generic argument: any bot state `b1` that is `b` with the quitter removed where the bot saw him
+      have hgen : ∀ (b1 : Bot), b1.nick = b.nick → b1.pfx = b.pfx → b1.cfgNick = b.cfgNick → b1.cfgIdent = b.cfgIdent →
+          (∀ x, x ≠ lower n → aget b1.n2h x = aget b.n2h x) →
+          (∀ kc, aget b1.channels kc = (aget b.channels kc).map (fun c => if lower n ∈ c.users then c.removeUser u.nick else c)) →
+          Coupled { s.dropEverywhere (lower n) with users := adel s.users (lower n) } b1 := by
+        intro b1 h1 h2 h3 h4 h5 h6
+        refine ⟨by rw [h1]; exact hc.nick, ?_, ?_, ?_, by rw [h3]; exact hc.cfgNick, by rw [h4]; exact hc.cfgIdent⟩
+        · intro kc
+          show ChanRel _ (aget (s.dropEverywhere (lower n)).chans kc) _
+          rw [aget_dropEverywhere hw.chansNodup, h6 kc]
+          have hrel := hc.chans kc
+          have hbk : ({ s.dropEverywhere (lower n) with users := adel s.users (lower n) } : Srv).botKey = s.botKey := rfl
+          cases hsc : aget s.chans kc with
+          | none =>
+            rw [hsc] at hrel
+            cases hbc : aget b.channels kc with
+            | none => simp [ChanRel, Option.filter]
+            | some ch => rw [hbc] at hrel; simp only [ChanRel] at hrel
+          | some sc =>
+            rw [hsc] at hrel
+            cases hbc : aget b.channels kc with
+            | none =>
+              rw [hbc] at hrel
+              simp only [ChanRel] at hrel
+              simp only [Option.map_some, Option.filter, Option.map_none]
+              split
+              · simp only [ChanRel, hbk]
+                rw [← Bool.not_eq_true]; intro hcon
+                rw [has_remove_of hcon] at hrel; cases hrel
+              · trivial
+            | some ch =>
+              rw [hbc] at hrel
+              simp only [ChanRel] at hrel
+              have hbin : (sc.remove (lower n)).has s.botKey = true := has_remove.mpr ⟨fun e => hnb e.symm, hrel.1⟩
+              have hne : (sc.remove (lower n)).members.isEmpty = false := by
+                cases he : (sc.remove (lower n)).members.isEmpty with
+                | false => rfl
+                | true => rw [has_of_nonempty_false he] at hbin; cases hbin
+              simp only [Option.map_some, Option.filter, hne, Bool.not_false, ↓reduceIte, ChanRel, hbk]
+              refine ⟨hbin, ?_⟩
+              by_cases hin : lower n ∈ ch.users
+              · simp only [hin, ↓reduceIte]
+                rw [← hkey]; exact chanMatches_remove hrel.2 u.nick
+              · simp only [hin, ↓reduceIte]
+                apply chanMatches_remove_absent hrel.2
+                rw [← Bool.not_eq_true, has_iff]
+                intro hcon; exact hin ((hrel.2.users _).mpr hcon)
+        · intro x ux hux hv
+          have hux' : aget (adel s.users (lower n)) x = some ux := hux
+          rw [aget_adel] at hux'
+          by_cases e : lower n = x
+          · simp [e] at hux'
+          · simp only [e, ↓reduceIte] at hux'
+            rw [h5 x (Ne.symm e)]
+            exact hc.hosts x ux hux' (visible_dropEverywhere hw.chansNodup hv)
+        · intro kc sc' hsc' hb'
+          obtain ⟨sc, hsc, rfl⟩ := dropEverywhere_chan hw.chansNodup hsc'
+          obtain ⟨ub, hub, hp⟩ := hc.pfx kc sc hsc (has_remove_of hb')
+          refine ⟨ub, ?_, by rw [h2]; exact hp⟩
+          show aget (adel s.users (lower n)) s.botKey = some ub
+          rw [aget_adel]; simp [hnb, hub]
+      by_cases hv : s.visible (lower n) = true
+      · simp only [hv, ↓reduceIte, recvAll_cons, recv_emit, recvAll_nil]
+        obtain ⟨_, hfeed⟩ := feed_from_user hw hc hu "QUIT".toList [r]
+          (setters_out_ok "QUIT".toList (by decide)) (by decide) (fun b0 => by simp only [Bot.ircCmd, cmdOf_QUIT])
+        rw [hfeed]
+        simp only [Bot.stateCmd, cmdOf_QUIT, Bot.doQuit, msg_nick_user huo]
+        apply hgen
+        · rfl
+        · show (if u.nick = b.nick then u.mask else b.pfx) = b.pfx
+          simp [hnown]
+        · rfl
+        · rfl
+        · intro x hx
+          show aget (adel (aset b.n2h (lower u.nick) u.mask) (lower u.nick)) x = _
+          rw [hkey, aget_adel, aget_aset]
+          simp [Ne.symm hx]
+        · intro kc
+          show aget (amapAll b.channels (fun c => if lower u.nick ∈ c.users then c.removeUser u.nick else c)) kc = _
+          rw [aget_amapAll, hkey]
+      · simp only [hv, Bool.false_eq_true, ↓reduceIte, recvAll_nil]
+        apply hgen b rfl rfl rfl rfl (fun _ _ => rfl)
+        intro kc
+        cases hbc : aget b.channels kc with
+        | none => rfl
+        | some ch =>
+          simp only [Option.map_some, Option.some.injEq]
+          have hrel := hc.chans kc
+          rw [hbc] at hrel
+          cases hsc : aget s.chans kc with
+          | none => rw [hsc] at hrel; simp only [ChanRel] at hrel
+          | some sc =>
+            rw [hsc] at hrel
+            simp only [ChanRel] at hrel
+            have : lower n ∉ ch.users := by
+              intro hin
+              apply hv
+              exact (visible_iff hw.chansNodup).mpr ⟨kc, sc, hsc, hrel.1, has_iff.mpr ((hrel.2.users _).mp hin)⟩
+            simp [this]
+
 end C10
